@@ -323,3 +323,50 @@ def census(facts, roots, stop=None):
         if sites:
             out[k] = sites
     return out
+
+
+# ------------------------------------------------------------------ enum-valued decisions, form-independent
+def enum_values(facts, conds, X, adt, lifted=True):
+    """Which variants (by index) of the fieldless enum `adt` the expression X can still have after the decisions
+    `conds` [(expr, value)].  Recognised forms: `X == Enum::V` / `!=`, `match X {..}` (discr(X) with a value or an
+    exclusion set), `matches!`.  -> set of indices"""
+    a = facts.adts.get(adt)
+    n = len(a["variants"]) if a else 0
+    names = [v["name"] for v in a["variants"]] if a else []
+    poss = set(range(n))
+    for c in conds:
+        e, v = c[0], c[1]
+        if e == ("discr", X):
+            if isinstance(v, int):
+                poss &= {v}
+            elif isinstance(v, tuple) and v and v[0] == "not":
+                poss -= set(v[1])
+        elif e[0] == "bin" and e[1] in ("Eq", "Ne") and isinstance(v, int):
+            other = None
+            if e[2] == X:
+                other = e[3]
+            elif e[3] == X:
+                other = e[2]
+            if other is not None and other[0] == "enum" and other[1] == adt and other[2] in names:
+                k = names.index(other[2])
+                if (e[1] == "Eq") == bool(v):
+                    poss &= {k}
+                else:
+                    poss -= {k}
+            elif e[2] == ("discr", X) and e[3][0] == "int" or e[3] == ("discr", X) and e[2][0] == "int":
+                k = e[3][1] if e[2] == ("discr", X) else e[2][1]
+                if (e[1] == "Eq") == bool(v):
+                    poss &= {k}
+                else:
+                    poss -= {k}
+    return poss
+
+
+def in_set3(poss, wanted):
+    """three-valued membership of a set of still-possible values in `wanted`"""
+    wanted = set(wanted)
+    if poss <= wanted:
+        return True
+    if not (poss & wanted):
+        return False
+    return None
